@@ -109,6 +109,10 @@ func (c *AdminOP)SetState(s StateDB){
 
 func (c *AdminOP) Run(input []byte) ([]byte, error) {
 	//[$len + $arg]
+	// 32 bytes length, 20 bytes sender; anything shorter is not a request
+	if len(input) < 32+20 {
+		return nil, fmt.Errorf("admin op input too short: %d bytes", len(input))
+	}
 	dlen := new(big.Int).SetBytes(input[:32]).Uint64()
 	offset := dlen + 32
 	if int(offset) > len(input) {
